@@ -384,6 +384,16 @@ void session_interface::save()
 	temp_cookie_.clear();
 
 	update_exposed(force_update);	
+	if(!force_update) {
+		// The session cookie was just reissued with its current lifetime, the exposed
+		// values that did not change were skipped above and would expire (or vanish on
+		// browser restart) before the session does: reissue them with the same lifetime
+		for(data_type::iterator p=data_.begin();p!=data_.end();++p) {
+			data_type::iterator p2=data_copy_.find(p->first);
+			if(p->second.exposed && p2!=data_copy_.end() && p2->second.exposed && p->second.value==p2->second.value)
+				set_session_cookie(cookie_age(),p->second.value,p->first);
+		}
+	}
 	saved_=true;
 }
 
